@@ -7,12 +7,16 @@ import (
 	"strings"
 	"time"
 
+	"net/http"
 	"net/url"
+
+	"github.com/zitadel/saml/pkg/provider"
 
 	"verif/harness/core"
 	"verif/harness/env"
 	"verif/harness/reply"
 	"verif/harness/sim"
+	"verif/harness/spsim"
 	"verif/harness/verify"
 )
 
@@ -179,6 +183,7 @@ func init() {
 				}
 			}
 			return []core.Workload{
+				{Name: "short_lifetime_slow_storage", N: 8, Workers: 8, Fn: c03ShortLifetime},
 				{Name: "callback_histories", N: c.Pick(120, 1200), Fn: cbHistory("C03")},
 				{Name: "callback_success", N: c.Pick(700, 8000), Before: zone("UTC", 0), Fn: c03Case},
 				// the process time zone must not leak into the (UTC) instants of the assertion
@@ -189,4 +194,69 @@ func init() {
 		},
 		After: func(c *Ctx) { verify.Py.Close() },
 	})
+}
+
+// c03ShortLifetime: an identity provider whose assertions live four seconds, over a storage in which one call of the
+// callback takes four and a half. Whatever order the provider reads and stamps in, an assertion it hands out has
+// not expired yet: now < NotOnOrAfter when the reply leaves.
+func c03ShortLifetime(r *core.Run, idx int, rng *rand.Rand) {
+	const wl = "short_lifetime_slow_storage"
+	const lifetime, hold = 4 * time.Second, 4500 * time.Millisecond
+	w := sim.NewWorld()
+	idp, err := provider.NewIdentityProvider(provider.NewEndpoint("/saml/metadata"), &provider.IdentityProviderConfig{SignatureAlgorithm: spsim.AlgRSASHA256}, w)
+	if err != nil {
+		r.Inconclusive("NewIdentityProvider: " + err.Error())
+		return
+	}
+	idp.Expiration = lifetime
+	var callback http.HandlerFunc
+	for _, route := range idp.GetRoutes() {
+		if route.Endpoint == "/"+provider.DefaultCallbackEndpoint {
+			callback = route.HandleFunc
+		}
+	}
+	iss, err2 := provider.StaticIssuer(idpIssuer)(false)
+	if callback == nil || err2 != nil {
+		r.Inconclusive("no callback route / issuer")
+		return
+	}
+	e := &env.Env{W: w, H: provider.NewIssuerInterceptor(iss).HandlerFunc(callback)}
+	sc := randScenario(rng, fmt.Sprintf("MK%ds", idx), false)
+	sc.Host, sc.Exp = "", lifetime
+	sc.Opts = env.Opts{SigAlg: spsim.AlgRSASHA256}
+	sc.S.Binding = []string{spsim.BindPost, spsim.BindRedirect}[idx%2]
+	sc.install(w)
+	slowOp := []string{"GetResponseSigningKey", "SetUserinfoWithUserID", "GetEntityIDByAppID", "GetResponseSigningKey"}[idx%4]
+	w.Before = func(_ context.Context, _, op string, occ int) {
+		if op == slowOp && occ == 1 {
+			time.Sleep(hold)
+		}
+	}
+	call := e.Do(env.Req{Path: "/" + provider.DefaultCallbackEndpoint, Query: "id=" + url.QueryEscape(sc.S.ID)})
+	class := fmt.Sprintf("short_lifetime|slow=%s|%s", slowOp, bindName(sc.S.Binding))
+	r.Eval(fmt.Sprintf("%s|%d", class, idx))
+	if call.Panic != "" {
+		r.Violate(core.Violation{Clause: "panic", Class: class, Reason: call.Panic, Workload: wl, Index: idx, Observed: call.Describe()})
+		return
+	}
+	if !call.D.Success() {
+		r.Count("short_lifetime_not_success", 1)
+		return
+	}
+	r.Count("short_lifetime_success", 1)
+	m := call.D.Msg
+	for _, v := range []string{m.CondNotOnOrAfter, m.SCNotOnOrAfter} {
+		noa, err := time.Parse(time.RFC3339Nano, v)
+		if err != nil {
+			noa, err = time.Parse(spsim.TimeLayout, v)
+		}
+		if err != nil {
+			continue // the layout is the provider's business (C03's main workload judges it)
+		}
+		if noa.Before(call.T1.Add(-250 * time.Millisecond)) {
+			r.Violate(core.Violation{Clause: "expired_when_issued", Class: class, Reason: fmt.Sprintf("the reply left at %s, its assertion says NotOnOrAfter %s: it had expired before it was handed out (lifetime %s, %s took %s)", call.T1.UTC().Format(time.RFC3339Nano), v, lifetime, slowOp, hold), Workload: wl, Index: idx,
+				Case: map[string]any{"lifetime": lifetime.String(), "slow_operation": slowOp, "held_for": hold.String()}, Observed: call.Describe()})
+			return
+		}
+	}
 }
